@@ -8,6 +8,7 @@ import shutil
 import tempfile
 
 from props.common import enc_str, enc_list, Reader
+from props.C16 import Coverage, ANCHORED
 
 ID = 'C17'
 COQ_MODEL = 'model.Range'
@@ -34,6 +35,7 @@ TRUSTED = ['C17: common_helpers.parse_date (email.utils.parsedate_tz, time.mktim
 ASSUMPTIONS = ['the file is a regular file that does not change during the request',
                'streaming buffer (maxread) > 0', 'sys.int_info.default_max_str_digits = 4300 (CPython default)']
 VM_CASES = 60
+COV = Coverage('C17', ANCHORED)
 
 _D = None
 _N = [0]
@@ -104,9 +106,14 @@ def mtime_seen(case):
     return int(case['mtime'] + 1e-9 * case['frac'])
 
 
-def st(file, mtime=1700000000, frac=0, method='GET', rng=None, ims=None, delta=None, tz=None):
+def st(file, mtime=1700000000, frac=0, method='GET', rng=None, ims=None, delta=None, tz=None, via='direct', prev=None, kw=None):
     """ims: literal header or None; delta: if not None the header is a well-formed date mtime+delta (format in ims)"""
-    return dict(kind='static', file=file, mtime=mtime, frac=frac, method=method, range=rng, ims=ims, delta=delta, tz=tz)
+    return dict(kind='static', file=file, mtime=mtime, frac=frac, method=method, range=rng, ims=ims, delta=delta, tz=tz,
+                via=via, prev=prev, kw=kw or {})
+
+
+def pr(fname, mimetype='auto', charset='UTF-8', download=False):
+    return dict(kind='present', fname=fname, mimetype=mimetype, charset=charset, download=download)
 
 
 def ims_header(case):
@@ -165,6 +172,26 @@ def corpus():
         st(d10, rng='bytes=1\xb2-5'), st(d10, rng='bytes=0-\xbd'),
         dict(kind='range', header='bytes=0-\xb2', maxlen=10), dict(kind='range', header='bytes=\u2070-\u2079', maxlen=10),
         dict(kind='range', header='bytes=\u2460-', maxlen=10), dict(kind='range', header='bytes=-\u2488', maxlen=10),
+        # the request of the application whose handler calls static_file decides, not the default application's
+        # (finding/fix C17-static-file-default-app): second application, with and without an earlier unrelated request
+        st(d10, via='app'), st(d10, via='app', rng='bytes=2-4'), st(d10, via='app', method='HEAD', rng='bytes=2-4'),
+        st(d10, via='app2'), st(d10, via='app2', rng='bytes=2-4'), st(d10, via='app2', method='HEAD'),
+        st(d10, via='app2', ims='rfc1123', delta=0), st(d10, via='app2', rng='bytes=50-'),
+        st(d10, via='app2', prev=dict(range='bytes=2-4')), st(d10, via='app2', prev=dict(method='HEAD')),
+        st(d10, via='app2', prev=dict(ims='Thu, 01 Jan 2099 00:00:00 GMT')),
+        st(d10, via='app2', rng='bytes=0-1', prev=dict(range='bytes=5-6')),
+        st(d10, via='app', prev=dict(range='bytes=2-4')), st(d10, via='direct', prev=dict(range='bytes=2-4')),
+        # presentation arguments do not change status, length, range or body
+        st(d10, rng='bytes=2-4', kw=dict(mimetype='text/plain', charset='latin1', download=True)),
+        st(d10, kw=dict(mimetype=None, download='x.bin')), st(d10, via='app2', kw=dict(download=True, mimetype='text/html')),
+        st(d10, ims='rfc1123', delta=0, kw=dict(download=True)),
+        pr('p.txt'), pr('p.txt', download=True), pr('p.txt', download='../up/name.bin'), pr('p.txt', download=''),
+        pr('p.txt', download='a"b;c.txt'), pr('p.txt', download='a\r\nX: y'), pr('a"b.txt', download=True),
+        pr('n\nl.txt', download=True), pr('n\nl.txt'), pr('p.tar.gz'), pr('p.tar.gz', download=True), pr('p.svgz'),
+        pr('noext'), pr('p.bin'), pr('p.html', charset='latin1'), pr('p.html', charset=''), pr('p.html', charset=None),
+        pr('p.bin', mimetype='text/x'), pr('p.bin', mimetype='text/x; charset=foo'), pr('p.bin', mimetype='text/charset'),
+        pr('p.bin', mimetype='TEXT/x'), pr('p.bin', mimetype='application/json'), pr('p.bin', mimetype=None),
+        pr('p.bin', mimetype=''), pr('p.txt', mimetype='text/a\nb'), pr('p.txt', charset='u\r8'), pr('p.css', charset='x y'),
         st(d10, ims=''),                               # F20: an empty If-Modified-Since header crashed (TypeError)
         st(d10, ims='', rng='bytes=0-3'), st(d10, ims='garbage'), st(d10, ims=' ; x'), st(d10, ims=';'), st(d10, ims=' '),
         st(d10, ims='Thu, 01 Jan 2099 00:00:00 GMT'), st(d10, ims='Thu, 32 Jan 2099 00:00:00 GMT'),
@@ -244,6 +271,14 @@ def gen(rng, n):
             # one file larger than static_file's real streaming buffer: two chunks
             yield st(dict(len=default_maxread() + 5, mul=7), rng='bytes=3-')
             continue
+        if rng.random() < 0.1:
+            yield pr(rng.choice(['p.txt', 'p.html', 'p.css', 'p.json', 'p.tar.gz', 'p.svgz', 'p.txt.bz2', 'noext', 'p.bin', 'P.TXT',
+                                 'a"b.txt', 'n\nl.txt', 'p.unknownext', '.hidden', 'x.py']),
+                     rng.choice(['auto', 'auto', 'auto', None, '', 'text/plain', 'text/x; charset=foo', 'text/charset', 'Text/plain',
+                                 'application/octet-stream', 'application/x; q=text/', 'text/a\rb', 'image/png']),
+                     rng.choice(['UTF-8', 'UTF-8', 'latin1', '', None, 'x\ny', 'utf-8; x=1']),
+                     rng.choice([False, False, True, True, '', 'name.bin', 'dir/sub/name.txt', '/abs/n', 'tr/', 'q"uote', 'a\nb', 'ü.txt']))
+            continue
         r = rng.random()
         L = rng.choice([0, 1, 2, 3, 5, 8, 10, 16, 40]) if rng.random() < 0.6 else rng.randrange(0, 41)
         file = [rng.randrange(256) for _ in range(L)]
@@ -274,7 +309,16 @@ def gen(rng, n):
                 delta = rng.choice([0, 0, 1, -1, -mtime, 60, 86400])   # dates at and around the epoch
             frac = rng.choice([0, 0, 1, 500000000, 999999999])
             tz = rng.choice(TZS) if (ims is not None and rng.random() < 0.5) else None
-            yield st(file, mtime, frac, method, rg, ims, delta, tz)
+            via = rng.choice(['direct', 'direct', 'direct', 'app', 'app2', 'app2'])
+            prev = None
+            if rng.random() < 0.4:
+                prev = rng.choice([dict(range='bytes=1-2'), dict(range='bytes=0-'), dict(method='HEAD'), dict(range='junk'),
+                                   dict(ims='Thu, 01 Jan 2099 00:00:00 GMT'), dict(ims='', range='bytes=-1'), dict()])
+            kw = {}
+            if rng.random() < 0.3:
+                kw = rng.choice([dict(download=True), dict(mimetype=None), dict(mimetype='text/plain', charset='latin1'),
+                                 dict(download='x.bin', mimetype='application/x'), dict(charset='')])
+            yield st(file, mtime, frac, method, rg, ims, delta, tz, via, prev, kw)
 
 
 def thorough():
@@ -296,12 +340,93 @@ ENTITY = ('allow', 'content-encoding', 'content-language', 'content-length', 'co
           'content-md5', 'last-modified')
 
 
+
+_APPS = {}
+_CUR = {}
+
+
+def apps():
+    """the module-level default application and a second, independent one; both route /__sf to static_file"""
+    if not _APPS:
+        import ombott
+        from ombott.ombott import Globals
+
+        def handler():
+            return ombott.static_file(_CUR['name'], _CUR['root'], **_CUR['kw'])
+        app2 = ombott.Ombott()
+        Globals.app.route('/__sf')(handler)
+        app2.route('/__sf')(handler)
+        _APPS.update(app=Globals.app, app2=app2)
+    return _APPS
+
+
+def request_environ(method, rng, ims):
+    import wsgiref.util
+    env = {}
+    wsgiref.util.setup_testing_defaults(env)
+    env['REQUEST_METHOD'] = method
+    env['PATH_INFO'] = '/__sf'
+    if rng is not None:
+        env['HTTP_RANGE'] = rng
+    if ims is not None:
+        env['HTTP_IF_MODIFIED_SINCE'] = ims
+    return env
+
+
+def wsgi_call(app, env):
+    out = {}
+
+    def start_response(status, headers, exc_info=None):
+        out['status'], out['headers'] = status, headers
+    it = app(env, start_response)
+    try:
+        body = b''.join(it)
+    finally:
+        close = getattr(it, 'close', None)
+        if close:
+            close()
+    return int(out['status'][:3]), out['headers'], body
+
+
+def kw_of(case):
+    """keyword arguments for static_file from the JSON form of the case"""
+    kw = dict(case.get('kw') or {})
+    return kw
+
+
 def run_impl(case):
     import ombott
     import ombott.static_stream as ss
     if case['kind'] == 'range':
-        r = ss.get_first_range(case['header'], case['maxlen'])
+        with COV:
+            r = ss.get_first_range(case['header'], case['maxlen'])
         return dict(result=None if r is None else [r[0], r[1]])
+    if case['kind'] == 'present':
+        from props.C16 import set_request
+        d = os.path.join(tmpdir(), 'pres')
+        os.makedirs(d, exist_ok=True)
+        path = os.path.join(d, case['fname'])
+        with open(path, 'wb') as f:
+            f.write(b'presentation')
+        set_request('GET', None, None)
+        try:
+            try:
+                with COV:
+                    resp = ombott.static_file(case['fname'], d, mimetype=case['mimetype'], charset=case['charset'],
+                                              download=case['download'])
+            except ValueError:
+                return dict(raised=True)
+            h = resp.headers
+            if hasattr(resp.body, 'close'):
+                resp.body.close()
+            if resp.status_code != 200:
+                return dict(status=resp.status_code)
+
+            def hv(k):
+                return None if h.get(k) is None else cps(h.get(k))
+            return dict(raised=False, cenc=hv('Content-Encoding'), ctype=hv('Content-Type'), cdisp=hv('Content-Disposition'))
+        finally:
+            os.unlink(path)
     data = fbytes(case)
     _N[0] += 1
     path = os.path.join(tmpdir(), 'f%d.bin' % _N[0])
@@ -313,8 +438,9 @@ def run_impl(case):
             with open(path, 'rb') as fp:
                 g = ss._file_iter_range(fp, case['offset'], case['n'], maxread=case['maxread'])
                 try:
-                    for c in g:
-                        chunks.append(list(c))
+                    with COV:
+                        for c in g:
+                            chunks.append(list(c))
                 except (ValueError, OSError) as e:
                     raised = type(e).__name__
             return dict(chunks=chunks, raised=bool(raised))
@@ -323,7 +449,15 @@ def run_impl(case):
         os.utime(path, ns=(ns, ns))
         if int(os.stat(path).st_mtime) != mtime_seen(case):
             return dict(error='harness: st_mtime %r differs from the predicted %d' % (os.stat(path).st_mtime, mtime_seen(case)))
-        set_request(case['method'], case['range'], ims_header(case))
+        via = case.get('via', 'direct')
+        prev = case.get('prev')
+        if prev:
+            # an earlier, unrelated request handled by the default application on this thread
+            set_request(prev.get('method', 'GET'), prev.get('range'), prev.get('ims'))
+        elif via == 'app2':
+            set_request('GET', None, None)
+        if via == 'direct':
+            set_request(case['method'], case['range'], ims_header(case))
         pd_args = []
         opened = []
         real_pd = ss.parse_date
@@ -340,15 +474,31 @@ def run_impl(case):
         saved_open = ss.__dict__.get('open')
         ss.parse_date = rec_pd
         ss.open = rec_open
+        resp = wire = None
         try:
-            with _tz(case):
-                resp = ombott.static_file(os.path.basename(path), tmpdir())
+            with _tz(case), COV:
+                if via == 'direct':
+                    resp = ombott.static_file(os.path.basename(path), tmpdir(), **kw_of(case))
+                else:
+                    _CUR.update(name=os.path.basename(path), root=tmpdir(), kw=kw_of(case))
+                    wire = wsgi_call(apps()[via], request_environ(case['method'], case['range'], ims_header(case)))
         finally:
             ss.parse_date = real_pd
             if had_open:
                 ss.open = saved_open
             else:
                 del ss.open
+        common = dict(opened=len(opened), ims_arg=(cps(pd_args[0]) if pd_args else None), pd_calls=len(pd_args))
+        if wire is not None:
+            status, hl, bodyb = wire
+            hd = {}
+            for k, v in hl:
+                hd.setdefault(k.lower(), v)
+            return dict(status=status, clen=hd.get('content-length') if status in (200, 206) else None,
+                        crange=hd.get('content-range'), accept=hd.get('accept-ranges'),
+                        lastmod='last-modified' in hd, date='date' in hd,
+                        body=dict(kind='wire', data=_compact(bodyb) if status in (200, 206, 304) else None),
+                        wire_entity=[k for k in sorted(hd) if k in ENTITY] if status == 304 else None, **common)
         body = resp.body
         status = resp.status_code
         if isinstance(body, (str, bytes)):
@@ -359,19 +509,17 @@ def run_impl(case):
         else:
             chunks, raised = [], False
             try:
-                for c in body:
-                    chunks.append(c)
+                with COV:
+                    for c in body:
+                        chunks.append(c)
             except (ValueError, OSError):
                 raised = True
             b = dict(kind='iter', sizes=[len(c) for c in chunks], data=_compact(b''.join(chunks)), raised=raised)
-        for p in opened:
-            pass
         h = resp.headers
-        wire = sorted(k.lower() for k, _ in resp.headerlist)
+        wire_names = sorted(k.lower() for k, _ in resp.headerlist)
         return dict(status=status, clen=h.get('Content-Length'), crange=h.get('Content-Range'),
                     accept=h.get('Accept-Ranges'), lastmod='Last-Modified' in h, date='Date' in h,
-                    opened=len(opened), body=b, ims_arg=(cps(pd_args[0]) if pd_args else None),
-                    pd_calls=len(pd_args), wire_entity=[k for k in wire if k in ENTITY] if status == 304 else None)
+                    body=b, wire_entity=[k for k in wire_names if k in ENTITY] if status == 304 else None, **common)
     finally:
         os.unlink(path)
 
@@ -384,8 +532,18 @@ def _compact(b):
     return list(b)
 
 
+def _wire_shape(status, clen, crange, accept, opened, ims_arg, data):
+    """what is compared for a request that went through an application's WSGI entry point"""
+    ok = status in (200, 206)
+    return dict(status=status, clen=clen if ok else None, crange=crange, accept=accept, opened=opened,
+                ims_arg=ims_arg, data=data if ok else None)
+
+
 def project(obs, case):
-    if case['kind'] != 'static' or 'status' not in obs:
+    k = case['kind']
+    if k == 'present':
+        return obs
+    if k != 'static' or 'status' not in obs:
         return obs
     o = dict(obs)
     o.pop('pd_calls')
@@ -393,6 +551,8 @@ def project(obs, case):
     o['clen'] = None if o['clen'] is None else cps(o['clen'])
     o['crange'] = None if o['crange'] is None else cps(o['crange'])
     o['accept'] = o['accept'] == 'bytes'
+    if case.get('via', 'direct') != 'direct':
+        return _wire_shape(o['status'], o['clen'], o['crange'], o['accept'], o['opened'], o['ims_arg'], o['body']['data'])
     if o['body']['kind'] == 'text':
         o['body'] = dict(kind='text')
     return o
@@ -419,6 +579,15 @@ def encode(case):
         return [0] + enc_str(cps(case['header'])) + [case['maxlen']]
     if k == 'iter':
         return [1] + enc_str(list(fbytes(case))) + [case['offset'], case['n'], case['maxread']]
+    if k == 'present':
+        import mimetypes
+        path = os.path.join(tmpdir(), 'pres', case['fname'])
+        gt, ge = mimetypes.guess_type(path)
+        m, cs, dl = case['mimetype'], case['charset'], case['download']
+        mtag = 0 if m == 'auto' else 1 if not m else 2
+        dtag = 0 if not dl else 1 if dl is True else 2
+        return ([3] + enc_str(cps(path)) + enc_opt_str(gt) + enc_opt_str(ge) + [mtag] + enc_str(cps(m or ''))
+                + enc_str(cps(cs or '')) + [dtag] + enc_str(cps(dl if isinstance(dl, str) else '')))
     pd = _parse_date_value(case)
     return ([2] + enc_str(list(fbytes(case))) + [mtime_seen(case)] + enc_opt_str(ims_header(case))
             + ([0, 0] if pd is None else [1, pd]) + [int(case['method'] == 'HEAD')] + enc_opt_str(case['range'])
@@ -441,6 +610,11 @@ def decode(out, case):
     if k == 'iter':
         chunks, raised = _iter(r)
         return dict(chunks=chunks, raised=raised)
+    if k == 'present':
+        if not r.int():
+            return dict(raised=True)
+        return dict(raised=False, cenc=r.str() if r.int() else None, ctype=r.str() if r.int() else None,
+                    cdisp=r.str() if r.int() else None)
     ims_arg = r.str() if r.int() else None
     status = r.int()
     clen = r.str() if r.int() else None
@@ -454,6 +628,8 @@ def decode(out, case):
     else:
         chunks, raised = _iter(r)
         body = dict(kind='iter', sizes=[len(c) for c in chunks], data=_compact(bytes(sum(chunks, []))), raised=raised)
+    if case.get('via', 'direct') != 'direct':
+        return _wire_shape(status, clen, crange, accept, int(opened), ims_arg, body.get('data', []))
     return dict(status=status, clen=clen, crange=crange, accept=accept, lastmod=lastmod, date=date,
                 opened=int(opened), body=body, ims_arg=ims_arg)
 
@@ -523,6 +699,38 @@ def oracle(case, obs):
         if len(sizes) != -(-len(want) // mr):
             return '%d chunks for %d bytes with buffer %d' % (len(sizes), len(want), mr)
         return None
+    if k == 'present':
+        if 'raised' not in obs:
+            return 'static_file answered %s for an existing file' % obs
+        import mimetypes
+        if obs['raised']:
+            vals = [case['mimetype'], case['charset'], case['download'], case['fname']]
+            if not any(isinstance(v, str) and any(c in v for c in '\r\n\0') for v in vals):
+                return 'ValueError although no argument contains CR, LF or NUL'
+            return None
+        for key in ('cenc', 'ctype', 'cdisp'):
+            if obs[key] is not None and any(c in (0, 10, 13) for c in obs[key]):
+                return 'control character in %s' % key
+        ct = None if obs['ctype'] is None else ''.join(map(chr, obs['ctype']))
+        m = case['mimetype']
+        base = mimetypes.guess_type(case['fname'])[0] if m == 'auto' else m
+        if not base:
+            if ct is not None:
+                return 'Content-Type %r without a mimetype' % ct
+        elif ct is None or not ct.startswith(base):
+            return 'Content-Type %r does not start with the mimetype %r' % (ct, base)
+        elif ct != base and ct != '%s; charset=%s' % (base, case['charset']):
+            return 'Content-Type %r for mimetype %r charset %r' % (ct, base, case['charset'])
+        elif ct != base and not base.startswith('text/'):
+            return 'charset appended to the non-text type %r' % base
+        dl = case['download']
+        cd = None if obs['cdisp'] is None else ''.join(map(chr, obs['cdisp']))
+        if not dl:
+            return None if cd is None else 'Content-Disposition %r without download' % cd
+        want = os.path.basename(case['fname'] if dl is True else dl)
+        if cd != 'attachment; filename="%s"' % want:
+            return 'Content-Disposition %r, expected the base name %r' % (cd, want)
+        return None
     # ---- static
     if 'status' not in obs:
         return 'static_file did not return a response: %s' % str(obs)[:200]
@@ -537,7 +745,7 @@ def oracle(case, obs):
         if stt != 304:
             return 'If-Modified-Since %r is not older than the file but status is %d' % (hdr, stt)
     if stt == 304:
-        if body['kind'] != 'text' or body.get('nonempty'):
+        if (body['kind'] == 'wire' and body['data']) or (body['kind'] != 'wire' and (body['kind'] != 'text' or body.get('nonempty'))):
             return '304 with a body'
         if obs['wire_entity']:
             return '304 carries entity headers %s' % obs['wire_entity']
@@ -550,6 +758,8 @@ def oracle(case, obs):
         if body['kind'] == 'text':
             return b'' if not body.get('nonempty') else None
         d = body['data']
+        if d is None:
+            return None
         return d if isinstance(d, dict) else bytes(d)
 
     def same(d, want):
@@ -584,6 +794,8 @@ def oracle(case, obs):
         if d is None or not same(d, data[a:b + 1]):
             return 'delivered bytes differ from file[%d:%d]' % (a, b + 1)
         sizes = body.get('sizes')
+        if body['kind'] == 'wire':
+            return None
         if sizes is None or any(s > mr or s == 0 for s in sizes) or body.get('raised'):
             return 'chunk sizes %s with streaming buffer %d' % (sizes, mr)
         return None
@@ -605,6 +817,8 @@ def nontrivial(case, obs):
         return rfc_first(case['header'], max(case['maxlen'], 0)) != 'n/a' or obs.get('result') is not None
     if k == 'iter':
         return len(obs.get('chunks') or []) >= 2
+    if k == 'present':
+        return case['mimetype'] != 'auto' or bool(case['download']) or obs.get('cenc') is not None
     return bool(case['range'] and 'bytes=' in case['range']) or bool(obs.get('pd_calls'))
 
 
@@ -620,7 +834,9 @@ def classify(case, obs):
         return 'range/%s/%s' % ('grammar' if g != 'n/a' else 'near-miss', 'none' if obs.get('result') is None else 'range')
     if k == 'iter':
         return 'iter/chunks=%s%s' % (min(len(obs.get('chunks') or []), 4), '/raised' if obs.get('raised') else '')
-    return 'static/%s/%s%s%s' % (case['method'], obs.get('status'), '/range' if case['range'] else '',
+    if k == 'present':
+        return 'present/%s' % ('raised' if obs.get('raised') else 'ok')
+    return 'static-%s/%s/%s%s%s' % (case.get('via', 'direct'), case['method'], obs.get('status'), '/range' if case['range'] else '',
                                  '/ims' if ims_header(case) is not None else '')
 
 
@@ -630,6 +846,11 @@ def shrink(case):
         h = case['header']
         for i in range(len(h)):
             yield dict(case, header=h[:i] + h[i + 1:])
+        return
+    if k == 'present':
+        for key, v in (('download', False), ('mimetype', 'auto'), ('charset', 'UTF-8'), ('fname', 'p.txt')):
+            if case[key] != v:
+                yield dict(case, **{key: v})
         return
     f = case['file']
     if isinstance(f, list):
@@ -649,6 +870,12 @@ def shrink(case):
             yield dict(case, frac=0)
         if case.get('tz') not in (None, 'MSK-3'):
             yield dict(case, tz='MSK-3')
+        if case.get('kw'):
+            yield dict(case, kw={})
+        if case.get('prev'):
+            yield dict(case, prev=None)
+        if case.get('via', 'direct') == 'app':
+            yield dict(case, via='direct')
 
 
 def _over_digit_limit(case, what, m):
@@ -657,7 +884,32 @@ def _over_digit_limit(case, what, m):
     return bool(g) and max(len(g.group(1)), len(g.group(2))) > m.get('digits', 4300)
 
 
-PREDICATES = {'range_numeral_over_int_digit_limit': _over_digit_limit}
+def _outside_default_app(case, what, m):
+    return case.get('kind') == 'static' and case.get('via') == 'app2'
+
+
+PREDICATES = {'range_numeral_over_int_digit_limit': _over_digit_limit,
+              'static_file_outside_default_app': _outside_default_app}
+
+API_SURFACE = [
+    ('get_first_range(header, maxlen)', 'covered by kind range (direct calls, maxlen negative/zero/huge) and by kind static'),
+    ('_file_iter_range(fp, offset, bytes_len, maxread)', 'covered by kind iter (all four arguments, illegal values included) and by kind static (default maxread, one file larger than it)'),
+    ('static_file(filename, root)', 'covered by kind static (existing regular file); refusals/404 belong to C16'),
+    ('static_file mimetype= / charset= / download=', 'covered by kind present (model sf_present: Content-Type, Content-Encoding, Content-Disposition, ValueError on CR/LF/NUL) and as riders on kind static (must not change status/length/range/body)'),
+    ('request.method (HEAD)', 'covered by kind static method=HEAD, directly and through the WSGI entry point'),
+    ('environ HTTP_RANGE', 'covered by kind static: absent, empty, grammar, near misses'),
+    ('environ HTTP_IF_MODIFIED_SINCE', 'covered by kind static: absent, empty, three date forms, parameters, junk, epoch, time zones'),
+    ('Globals.request / application binding', 'covered by kind static via=direct|app|app2 with prev= (an earlier unrelated request on the default application)'),
+    ('several calls in one process', 'covered: every case runs in one process, prev= makes the order adversarial; static_stream has no module-level state of its own'),
+    ('common_helpers.parse_date', 'covered through kind static (argument recorded, result fed to the model; instants judged independently by the oracle under several TZ)'),
+    ('Last-Modified / Date values', 'excluded: email.utils.formatdate output is not modelled; presence is compared'),
+    ('mimetypes.guess_type', 'excluded as an oracle: its real result is an input of sf_present'),
+    ('os.stat size/mtime', 'covered: sizes 0..40 and 1 MiB+5, mtimes 0,1,2,.., fractional'),
+    ('root / filename as bytes', 'excluded: TypeError before anything is opened (API misuse: abspath(bytes) + str)'),
+    ('root as os.PathLike', 'covered by C16 (root_kind=path)'),
+    ('HTTPResponse.headerlist for 304', 'covered by the oracle (no entity header on the wire), model: C14'),
+    ('file changes between stat and read, symlinks', 'excluded: outside the property (see ASSUMPTIONS)'),
+]
 
 MANIFEST = dict(
     text=('Proof (Coq, all theorems closed under the global context): C17_range_sound (for ANY int parser a returned range '
